@@ -602,6 +602,7 @@ Rock::Rebuild::finalizeOrThrow(const sfileno fileNo, LoadingEntry &le)
     // walk all map-linked slots, starting from inode, and mark each
     Ipc::StoreMapAnchor &anchor = sd->map->writeableEntry(fileNo);
     Must(le.size > 0); // paranoid
+    Must(le.anchored()); // without its inode slot, anchor.start is not where the chain starts
     uint64_t mappedSize = 0;
     SlotId slotId = anchor.start;
     while (slotId >= 0 && mappedSize < le.size) {
